@@ -127,6 +127,25 @@ def _replay_err(b):
                             {"got": v, "specified": want[name], "iterated_side": st["side"], "matching": st["match"]}))
         if "rmse" in got and "mse" in got and got["mse"] >= 0 and not numeric.close(got["rmse"], math.sqrt(got["mse"]), rel=1e-12):
             bad.append(("rmse-is-sqrt-mse", {"strategy": s, "rmse": got["rmse"], "mse": got["mse"]}))
+    # the same curve translated below zero in y (by an integer, exact): nearest-neighbour matching, MAE and MSE are translation
+    # invariant, RMSPE is recomputed from its definition on the translated coordinates (negative denominators included)
+    dy = -(int(max(b["ys"])) + 3)
+    P2 = P + np.array([0.0, float(dy)])
+    E2 = E + np.array([0.0, float(dy)])
+    kp2 = [(k, b["ys"][k] + dy) for k in b["knees"]]
+    ep2 = [(q[0], q[1] + dy) for q in b["expected"]]
+    for s in STRATS:
+        st = b["strat"][s]
+        a2, bp2 = (kp2, ep2) if st["side"] == "knees" else (ep2, kp2)
+        try:
+            got2 = {name: float(getattr(ev, name)(P2, K, E2, ev.Strategy[s])) for name in ("mae", "mse", "rmspe")}
+        except Exception as ex:
+            bad.append(("returns", {"fn": "mae/mse/rmspe", "strategy": s, "y_translated_by": dy, "raised": repr(ex)[:200]}))
+            continue
+        want2 = {"mae": st["mae"][0] / st["mae"][1], "mse": st["mse"][0] / st["mse"][1], "rmspe": _rmspe_def(a2, bp2, st["match"])}
+        for name, v in got2.items():
+            if not _close(v, want2[name]):
+                bad.append(("error-definition(%s,%s)" % (name, s), {"got": v, "specified": want2[name], "y_translated_by": dy}))
     # the same identity through the DEFAULT strategy (whatever it is): a call without the optional argument is a valid call
     try:
         r0, m0 = float(ev.rmse(P, K, E)), float(ev.mse(P, K, E))
